@@ -29,6 +29,9 @@ MODELLED RATHER THAN VERIFIED (outside every theorem; evidence is the differenti
 * the random forest is a total function `rf speed grade` / `underlying speed grade`: the error arm of
   `rf.predict(..)` in `SmartcoreSpeedGradeModel::predict` and of `model.predict(..)?` while `new` fills the
   grid are not modelled (smartcore's `predict` on a 1x2 matrix does not fail; never observed in the run);
+* `cap : Nat` (in `newAlloc`, `loadPredictionModel`) stands for the largest count of `f64` values the machine
+  can reserve; a bin count below it whose table takes very long to fill, and running out of memory while
+  filling, are not modelled;
 * `fileOk : Bool` stands for "the model file can be read and deserialised" (bincode / file system);
 * `PredictionModelRecord::predict` is modelled without a cache (`cache = None`); the cache is C08's;
 * the bundled vehicle models themselves (quantifier Q4 of the property) appear only in the differential run;
@@ -103,6 +106,35 @@ theorem new_rejects_fewer_than_two_bins (underlying : α → α → α) (su : Sp
     (gu : GradeUnit) (g0 g1 : α) (gb : Nat) (ru : EnergyRateUnit) (h : sb < 2 ∨ gb < 2) :
     ∃ e, SpeedGradeModel.new underlying su s0 s1 sb gu g0 g1 gb ru = .err e :=
   new_rejects_short underlying su s0 s1 sb gu g0 g1 gb ru h
+
+/-- `new` with its allocations (`cap`: the largest count of values that can be reserved on the machine —
+data).  It never panics or aborts, for every bin count: a bin count, or a product of the two bin counts, that
+cannot be allocated is the allocation error (before the repair `vec![x0; n]` aborted the process for
+`speed_bins = 4·10¹²` and panicked for `usize::MAX`), returned before anything is predicted; otherwise it is
+`new` — so every theorem below about the models of `new` applies to what it returns.  A table that can be
+allocated but takes very long to fill is not modelled. -/
+theorem new_alloc_never_panics (cap : Nat) (underlying : α → α → α) (su : SpeedUnit) (s0 s1 : α) (sb : Nat)
+    (gu : GradeUnit) (g0 g1 : α) (gb : Nat) (ru : EnergyRateUnit) :
+    ((∃ m, SpeedGradeModel.newAlloc cap underlying su s0 s1 sb gu g0 g1 gb ru = .ok m) ∨
+      (∃ e, SpeedGradeModel.newAlloc cap underlying su s0 s1 sb gu g0 g1 gb ru = .err e)) ∧
+    (cap < sb ∨ cap < gb ∨ cap < sb * gb →
+      SpeedGradeModel.newAlloc cap underlying su s0 s1 sb gu g0 g1 gb ru = .err .alloc) ∧
+    (sb ≤ cap → gb ≤ cap → sb * gb ≤ cap →
+      SpeedGradeModel.newAlloc cap underlying su s0 s1 sb gu g0 g1 gb ru =
+        SpeedGradeModel.new underlying su s0 s1 sb gu g0 g1 gb ru) ∧
+    (∀ m, SpeedGradeModel.newAlloc cap underlying su s0 s1 sb gu g0 g1 gb ru = .ok m →
+      SpeedGradeModel.new underlying su s0 s1 sb gu g0 g1 gb ru = .ok m) := by
+  rw [newAlloc_eq]
+  refine ⟨?_, ?_, ?_, ?_⟩
+  · by_cases hc : cap < sb ∨ cap < gb ∨ cap < sb * gb
+    · rw [if_pos hc]; exact Or.inr ⟨_, rfl⟩
+    · rw [if_neg hc]; exact new_graceful underlying su s0 s1 sb gu g0 g1 gb ru
+  · intro hc; rw [if_pos hc]
+  · intro h1 h2 h3; rw [if_neg (by omega)]
+  · intro m h
+    by_cases hc : cap < sb ∨ cap < gb ∨ cap < sb * gb
+    · rw [if_pos hc] at h; cases h
+    · rw [if_neg hc] at h; exact h
 
 /-- the grid `new` builds runs exactly from the lower to the upper bound -/
 theorem grid_spans_bounds (x0 xend : α) (n : Nat) (hn : 2 ≤ n) (h : x0 < xend) :
@@ -628,16 +660,16 @@ theorem smartcore_predict_def (rf : α → α → α) (su : SpeedUnit) (gu : Gra
   simp [smartcorePredict, speed_convert_self, grade_convert_self]
 
 /-- an unreadable model file is a build error for every model type, nested ones included … -/
-theorem load_rejects_unreadable_file (rf : α → α → α) (mt : ModelType α) (su : SpeedUnit) (gu : GradeUnit)
+theorem load_rejects_unreadable_file (cap : Nat) (rf : α → α → α) (mt : ModelType α) (su : SpeedUnit) (gu : GradeUnit)
     (ru : EnergyRateUnit) (ideal adj : Option α) :
-    loadPredictionModel rf false mt su gu ru ideal adj = .err .build :=
-  load_unreadable rf mt su gu ru ideal adj
+    loadPredictionModel cap rf false mt su gu ru ideal adj = .err .build :=
+  load_unreadable cap rf mt su gu ru ideal adj
 
 /-- … and so is an ONNX model type anywhere in the configuration (the feature is off) -/
-theorem load_rejects_onnx (rf : α → α → α) (fileOk : Bool) (mt : ModelType α) (h : mt.hasOnnx = true)
+theorem load_rejects_onnx (cap : Nat) (rf : α → α → α) (fileOk : Bool) (mt : ModelType α) (h : mt.hasOnnx = true)
     (su : SpeedUnit) (gu : GradeUnit) (ru : EnergyRateUnit) (ideal adj : Option α) :
-    loadPredictionModel rf fileOk mt su gu ru ideal adj = .err .build :=
-  load_onnx rf fileOk mt h su gu ru ideal adj
+    loadPredictionModel cap rf fileOk mt su gu ru ideal adj = .err .build :=
+  load_onnx cap rf fileOk mt h su gu ru ideal adj
 
 /-- the ideal rate of a loaded record: the configured one; or, when none is configured, the minimum of the
 20..79 mph sweep at zero grade — at most every swept prediction, and attained by one of them (or `f64::MAX`
@@ -653,9 +685,9 @@ def IdealRateOk (r : Record α) (ideal : Option α) : Prop :=
 /-- the `Smartcore` arm always loads a readable file (the forest is a total function in the model — see
 the header): the record carries the configured units, the smartcore model, the ideal rate (`IdealRateOk`)
 and the configured adjustment, or 1 -/
-theorem load_smartcore (rf : α → α → α) (su : SpeedUnit) (gu : GradeUnit) (ru : EnergyRateUnit)
+theorem load_smartcore (cap : Nat) (rf : α → α → α) (su : SpeedUnit) (gu : GradeUnit) (ru : EnergyRateUnit)
     (ideal adj : Option α) :
-    ∃ r, loadPredictionModel rf true .smartcore su gu ru ideal adj = .ok r ∧
+    ∃ r, loadPredictionModel cap rf true .smartcore su gu ru ideal adj = .ok r ∧
       r.model = smartcorePredict rf su gu ru ∧ r.speedUnit = su ∧ r.gradeUnit = gu ∧
       r.energyRateUnit = ru ∧
       r.realWorldEnergyAdjustment = (match adj with | some a => a | none => 1) ∧ IdealRateOk r ideal := by
@@ -681,13 +713,13 @@ theorem load_smartcore (rf : α → α → α) (su : SpeedUnit) (gu : GradeUnit)
 /-- every record `load_prediction_model` returns — Smartcore, Interpolate, Interpolate of Interpolate, … —
 has a model that never fails: a rate in the configured unit for every speed, grade and input unit; and the
 record carries the configured units and adjustment -/
-theorem loaded_model_never_fails (rf : α → α → α) (mt : ModelType α) (su : SpeedUnit) (gu : GradeUnit)
+theorem loaded_model_never_fails (cap : Nat) (rf : α → α → α) (mt : ModelType α) (su : SpeedUnit) (gu : GradeUnit)
     (ru : EnergyRateUnit) (ideal adj : Option α) (r : Record α)
-    (h : loadPredictionModel rf true mt su gu ru ideal adj = .ok r) :
+    (h : loadPredictionModel cap rf true mt su gu ru ideal adj = .ok r) :
     (∀ speed qsu grade qgu, ∃ v, r.model speed qsu grade qgu = .ok (v, ru)) ∧ r.speedUnit = su ∧
       r.gradeUnit = gu ∧ r.energyRateUnit = ru ∧
       r.realWorldEnergyAdjustment = (match adj with | some a => a | none => 1) := by
-  obtain ⟨h1, h2, h3, h4, h5⟩ := loaded_spec rf mt su gu ru ideal adj r h
+  obtain ⟨h1, h2, h3, h4, h5⟩ := loaded_spec cap rf mt su gu ru ideal adj r h
   refine ⟨h1, h2, h3, h4, ?_⟩
   rw [h5]; cases adj <;> simp
 
@@ -697,19 +729,21 @@ query, and the loaded model is exactly `InterpolationSpeedGradeModel::new` over 
 (`rateOf urec.model su gu`) with the configured speed bounds / bins and grade bounds / bins in their places —
 so every theorem of the speed/grade section (between corners, exact on grid, continuity, clamping, never
 fails) holds for the loaded model with `underlying := rateOf urec.model su gu` -/
-theorem load_interpolate_is_new (rf : α → α → α) (u : ModelType α) (su : SpeedUnit) (gu : GradeUnit)
+theorem load_interpolate_is_new (cap : Nat) (rf : α → α → α) (u : ModelType α) (su : SpeedUnit) (gu : GradeUnit)
     (ru : EnergyRateUnit) (s0 s1 : α) (sb : Nat) (g0 g1 : α) (gb : Nat) (ideal adj : Option α) (r : Record α)
-    (h : loadPredictionModel rf true (.interpolate u s0 s1 sb g0 g1 gb) su gu ru ideal adj = .ok r) :
-    ∃ urec m, loadPredictionModel rf true u su gu ru none none = .ok urec ∧
+    (h : loadPredictionModel cap rf true (.interpolate u s0 s1 sb g0 g1 gb) su gu ru ideal adj = .ok r) :
+    ∃ urec m, loadPredictionModel cap rf true u su gu ru none none = .ok urec ∧
       (∀ s g, urec.model s su g gu = .ok (rateOf urec.model su gu s g, ru)) ∧
       SpeedGradeModel.new (rateOf urec.model su gu) su s0 s1 sb gu g0 g1 gb ru = .ok m ∧
       r.model = m.predict ∧ r.speedUnit = su ∧ r.gradeUnit = gu ∧ r.energyRateUnit = ru ∧
-      r.realWorldEnergyAdjustment = (match adj with | some a => a | none => 1) ∧ IdealRateOk r ideal := by
-  cases hu : loadPredictionModel rf true u su gu ru none none with
+      r.realWorldEnergyAdjustment = (match adj with | some a => a | none => 1) ∧ IdealRateOk r ideal ∧
+      sb ≤ cap ∧ gb ≤ cap ∧ sb * gb ≤ cap := by
+  cases hu : loadPredictionModel cap rf true u su gu ru none none with
   | ok urec =>
-    obtain ⟨htot, _, _, hru, hadj⟩ := loaded_spec rf u su gu ru none none urec hu
-    rw [load_interpolate_eq rf u su gu ru s0 s1 sb g0 g1 gb ideal adj urec hu htot hadj hru] at h
-    obtain ⟨m, hm, h⟩ := Res.bind_eq_ok h
+    obtain ⟨htot, _, _, hru, hadj⟩ := loaded_spec cap rf u su gu ru none none urec hu
+    rw [load_interpolate_eq cap rf u su gu ru s0 s1 sb g0 g1 gb ideal adj urec hu htot hadj hru] at h
+    obtain ⟨m, hm', h⟩ := Res.bind_eq_ok h
+    obtain ⟨hm, hc1, hc2, hc3⟩ := newAlloc_ok_new cap _ su s0 s1 sb gu g0 g1 gb ru m hm'
     have hmt := new_predict_total (rateOf urec.model su gu) su s0 s1 sb gu g0 g1 gb ru m hm
     have htot' : ∀ s qsu g qgu, ∃ v w, m.predict s qsu g qgu = .ok (v, w) :=
       fun s qsu g qgu => by obtain ⟨v, hv⟩ := hmt s qsu g qgu; exact ⟨v, ru, hv⟩
@@ -721,7 +755,7 @@ theorem load_interpolate_is_new (rf : α → α → α) (u : ModelType α) (su :
       | some x =>
         simp only [Res.ok_bind, Res.ok.injEq] at h
         subst h
-        refine ⟨rfl, rfl, rfl, rfl, ?_, ?_, ?_⟩
+        refine ⟨rfl, rfl, rfl, rfl, ?_, ⟨?_, ?_⟩, hc1, hc2, hc3⟩
         · cases adj <;> simp
         · intro y hy; cases hy; rfl
         · intro h; cases h
@@ -729,7 +763,7 @@ theorem load_interpolate_is_new (rf : α → α → α) (u : ModelType α) (su :
         obtain ⟨v, hv, _, hall, hatt⟩ := findMinEnergyRateFrom_spec m.predict htot' sweepSpeeds f64Max
         simp only [findMinEnergyRate, hv, Res.ok_bind, Res.ok.injEq] at h
         subst h
-        refine ⟨rfl, rfl, rfl, rfl, ?_, ?_, ?_⟩
+        refine ⟨rfl, rfl, rfl, rfl, ?_, ⟨?_, ?_⟩, hc1, hc2, hc3⟩
         · cases adj <;> simp
         · intro y hy; cases hy
         · intro _; exact ⟨hall, hatt⟩
@@ -738,30 +772,35 @@ theorem load_interpolate_is_new (rf : α → α → α) (u : ModelType α) (su :
   | diverges => unfold loadPredictionModel at h; simp only [hu] at h; cases h
 
 /-- … in particular directly over a forest the underlying rates are the forest itself -/
-theorem load_interpolate_over_forest_is_new (rf : α → α → α) (su : SpeedUnit) (gu : GradeUnit)
+theorem load_interpolate_over_forest_is_new (cap : Nat) (rf : α → α → α) (su : SpeedUnit) (gu : GradeUnit)
     (ru : EnergyRateUnit) (s0 s1 : α) (sb : Nat) (g0 g1 : α) (gb : Nat) (ideal adj : Option α) (r : Record α)
-    (h : loadPredictionModel rf true (.interpolate .smartcore s0 s1 sb g0 g1 gb) su gu ru ideal adj = .ok r) :
+    (h : loadPredictionModel cap rf true (.interpolate .smartcore s0 s1 sb g0 g1 gb) su gu ru ideal adj = .ok r) :
     ∃ m, SpeedGradeModel.new rf su s0 s1 sb gu g0 g1 gb ru = .ok m ∧ r.model = m.predict := by
   obtain ⟨urec, m, hu, _, hm, hmod, _⟩ :=
-    load_interpolate_is_new rf .smartcore su gu ru s0 s1 sb g0 g1 gb ideal adj r h
-  obtain ⟨r', hr', hmodel, _⟩ := load_smartcore rf su gu ru none none
+    load_interpolate_is_new cap rf .smartcore su gu ru s0 s1 sb g0 g1 gb ideal adj r h
+  obtain ⟨r', hr', hmodel, _⟩ := load_smartcore cap rf su gu ru none none
   rw [hr'] at hu; cases hu
   rw [hmodel, rateOf_smartcore] at hm
   exact ⟨m, hm, hmod⟩
 
-/-- the `Interpolate` arm loads whenever its underlying model type loads, the bounds increase and there are
-at least two bins per axis; with fewer bins it is an error, never a panic -/
-theorem load_interpolate_succeeds (rf : α → α → α) (u : ModelType α) (su : SpeedUnit) (gu : GradeUnit)
+/-- the `Interpolate` arm loads whenever its underlying model type loads, the bounds increase, there are at
+least two bins per axis and the axes and the table can be allocated; with fewer bins it is an error; with a
+bin count (or a product of bin counts) that cannot be allocated it is the allocation error — never a panic
+or an abort -/
+theorem load_interpolate_succeeds (cap : Nat) (rf : α → α → α) (u : ModelType α) (su : SpeedUnit) (gu : GradeUnit)
     (ru : EnergyRateUnit) (s0 s1 : α) (sb : Nat) (g0 g1 : α) (gb : Nat) (ideal adj : Option α)
-    (urec : Record α) (hu : loadPredictionModel rf true u su gu ru none none = .ok urec) :
-    (s0 < s1 → g0 < g1 → 2 ≤ sb → 2 ≤ gb →
-      ∃ r, loadPredictionModel rf true (.interpolate u s0 s1 sb g0 g1 gb) su gu ru ideal adj = .ok r) ∧
+    (urec : Record α) (hu : loadPredictionModel cap rf true u su gu ru none none = .ok urec) :
+    (s0 < s1 → g0 < g1 → 2 ≤ sb → 2 ≤ gb → sb ≤ cap → gb ≤ cap → sb * gb ≤ cap →
+      ∃ r, loadPredictionModel cap rf true (.interpolate u s0 s1 sb g0 g1 gb) su gu ru ideal adj = .ok r) ∧
     (sb < 2 ∨ gb < 2 →
-      ∃ e, loadPredictionModel rf true (.interpolate u s0 s1 sb g0 g1 gb) su gu ru ideal adj = .err e) := by
-  obtain ⟨htot, _, _, hru, hadj⟩ := loaded_spec rf u su gu ru none none urec hu
-  rw [load_interpolate_eq rf u su gu ru s0 s1 sb g0 g1 gb ideal adj urec hu htot hadj hru]
-  constructor
-  · intro hs hg hsb hgb
+      ∃ e, loadPredictionModel cap rf true (.interpolate u s0 s1 sb g0 g1 gb) su gu ru ideal adj = .err e) ∧
+    (cap < sb ∨ cap < gb ∨ cap < sb * gb →
+      loadPredictionModel cap rf true (.interpolate u s0 s1 sb g0 g1 gb) su gu ru ideal adj = .err .alloc) := by
+  obtain ⟨htot, _, _, hru, hadj⟩ := loaded_spec cap rf u su gu ru none none urec hu
+  rw [load_interpolate_eq cap rf u su gu ru s0 s1 sb g0 g1 gb ideal adj urec hu htot hadj hru, newAlloc_eq]
+  refine ⟨?_, ?_, ?_⟩
+  · intro hs hg hsb hgb hc1 hc2 hc3
+    rw [if_neg (by omega)]
     obtain ⟨m, hm⟩ := new_ok (rateOf urec.model su gu) su s0 s1 sb gu g0 g1 gb ru hs hg hsb hgb
     rw [hm, Res.ok_bind]
     cases ideal with
@@ -774,22 +813,66 @@ theorem load_interpolate_succeeds (rf : α → α → α) (u : ModelType α) (su
       simp only [findMinEnergyRate, hv, Res.ok_bind]
       exact ⟨_, rfl⟩
   · intro h
-    obtain ⟨e, he⟩ := new_rejects_short (rateOf urec.model su gu) su s0 s1 sb gu g0 g1 gb ru h
-    rw [he]
-    exact ⟨e, rfl⟩
+    by_cases hc : cap < sb ∨ cap < gb ∨ cap < sb * gb
+    · rw [if_pos hc]; exact ⟨_, rfl⟩
+    · rw [if_neg hc]
+      obtain ⟨e, he⟩ := new_rejects_short (rateOf urec.model su gu) su s0 s1 sb gu g0 g1 gb ru h
+      rw [he]
+      exact ⟨e, rfl⟩
+  · intro hc
+    rw [if_pos hc]; rfl
+
+/-- `load_prediction_model` never panics or aborts: for every model type (nested to any depth), every
+bound, every bin count (zero, one, beyond what can be allocated), readable file or not, it returns a record
+or an error -/
+theorem load_never_panics (cap : Nat) (rf : α → α → α) (fileOk : Bool) (mt : ModelType α) (su : SpeedUnit)
+    (gu : GradeUnit) (ru : EnergyRateUnit) (ideal adj : Option α) :
+    (∃ r, loadPredictionModel cap rf fileOk mt su gu ru ideal adj = .ok r) ∨
+      (∃ e, loadPredictionModel cap rf fileOk mt su gu ru ideal adj = .err e) := by
+  cases fileOk with
+  | false => exact Or.inr ⟨_, load_unreadable cap rf mt su gu ru ideal adj⟩
+  | true =>
+    induction mt generalizing ideal adj with
+    | smartcore =>
+      obtain ⟨r, hr, _⟩ := load_smartcore cap rf su gu ru ideal adj
+      exact Or.inl ⟨r, hr⟩
+    | onnx => exact Or.inr ⟨_, load_onnx cap rf true .onnx rfl su gu ru ideal adj⟩
+    | interpolate u s0 s1 sb g0 g1 gb ih =>
+      rcases ih none none with ⟨urec, hu⟩ | ⟨e, he⟩
+      · obtain ⟨htot, _, _, hru, hadj⟩ := loaded_spec cap rf u su gu ru none none urec hu
+        rw [load_interpolate_eq cap rf u su gu ru s0 s1 sb g0 g1 gb ideal adj urec hu htot hadj hru, newAlloc_eq]
+        by_cases hc : cap < sb ∨ cap < gb ∨ cap < sb * gb
+        · rw [if_pos hc]; exact Or.inr ⟨_, rfl⟩
+        · rw [if_neg hc]
+          rcases new_graceful (rateOf urec.model su gu) su s0 s1 sb gu g0 g1 gb ru with ⟨m, hm⟩ | ⟨e, he⟩
+          · rw [hm, Res.ok_bind]
+            cases ideal with
+            | some x => exact Or.inl ⟨_, rfl⟩
+            | none =>
+              have hmt := new_predict_total (rateOf urec.model su gu) su s0 s1 sb gu g0 g1 gb ru m hm
+              have htot' : ∀ s qsu g qgu, ∃ v w, m.predict s qsu g qgu = .ok (v, w) :=
+                fun s qsu g qgu => by obtain ⟨v, hv⟩ := hmt s qsu g qgu; exact ⟨v, ru, hv⟩
+              obtain ⟨v, hv, _, _, _⟩ := findMinEnergyRateFrom_spec m.predict htot' sweepSpeeds f64Max
+              simp only [findMinEnergyRate, hv, Res.ok_bind]
+              exact Or.inl ⟨_, rfl⟩
+          · rw [he]; exact Or.inr ⟨e, rfl⟩
+      · right
+        refine ⟨e, ?_⟩
+        unfold loadPredictionModel
+        simp only [he, Res.err_bind]
 
 /-- the interpolated model against the underlying model, both as loaded: at every grid point (given in the
 model's units) the two `PredictionModel::predict` results are the same -/
-theorem loaded_interpolation_matches_underlying_on_grid (rf : α → α → α) (su : SpeedUnit) (gu : GradeUnit)
+theorem loaded_interpolation_matches_underlying_on_grid (cap : Nat) (rf : α → α → α) (su : SpeedUnit) (gu : GradeUnit)
     (ru : EnergyRateUnit) (s0 s1 : α) (sb : Nat) (g0 g1 : α) (gb : Nat) (i1 a1 i2 a2 : Option α)
     (ri ru' : Record α)
-    (hi : loadPredictionModel rf true (.interpolate .smartcore s0 s1 sb g0 g1 gb) su gu ru i1 a1 = .ok ri)
-    (hu : loadPredictionModel rf true .smartcore su gu ru i2 a2 = .ok ru')
+    (hi : loadPredictionModel cap rf true (.interpolate .smartcore s0 s1 sb g0 g1 gb) su gu ru i1 a1 = .ok ri)
+    (hu : loadPredictionModel cap rf true .smartcore su gu ru i2 a2 = .ok ru')
     (xs ys : List α) (hxs : linspace s0 s1 sb = .ok xs) (hys : linspace g0 g1 gb = .ok ys)
     (i j : Nat) (x y : α) (hx : xs[i]? = some x) (hy : ys[j]? = some y) :
     ri.model x su y gu = ru'.model x su y gu := by
-  obtain ⟨m, hm, hmod⟩ := load_interpolate_over_forest_is_new rf su gu ru s0 s1 sb g0 g1 gb i1 a1 ri hi
-  obtain ⟨r, hr, hrm, _⟩ := load_smartcore rf su gu ru i2 a2
+  obtain ⟨m, hm, hmod⟩ := load_interpolate_over_forest_is_new cap rf su gu ru s0 s1 sb g0 g1 gb i1 a1 ri hi
+  obtain ⟨r, hr, hrm, _⟩ := load_smartcore cap rf su gu ru i2 a2
   rw [hr] at hu; cases hu
   rw [hmod, hrm, (smartcore_predict_def rf su gu ru x su y gu).2]
   exact exact_on_grid rf su s0 s1 sb gu g0 g1 gb ru m hm xs ys hxs hys i j x y hx hy x su y gu
@@ -820,6 +903,16 @@ example : validateN { grid := [[(0 : ℚ), 1]], shape := [2, 2], get := getFlat 
     validateN { grid := ([] : List (List ℚ)), shape := [2], get := getFlat [2] [0, 1] } = .err .gridDim := by
   decide +kernel
 example : linspace (0 : ℚ) 1 0 = .ok [] := by decide +kernel
+/-- bin counts that cannot be allocated (the reviewer's 4·10¹² and `usize::MAX`, and two allocatable axes
+whose table is not): the allocation error, with `cap` = 2⁴⁰ values -/
+example : SpeedGradeModel.newAlloc (2 ^ 40) (fun (_ _ : ℚ) => (1 : ℚ)) .milesPerHour 0 100 4000000000000 .decimal
+      (-1 / 5) (1 / 5) 41 .gallonsGasolinePerMile = .err .alloc ∧
+    SpeedGradeModel.newAlloc (2 ^ 40) (fun (_ _ : ℚ) => (1 : ℚ)) .milesPerHour 0 100 101 .decimal
+      (-1 / 5) (1 / 5) 18446744073709551615 .gallonsGasolinePerMile = .err .alloc ∧
+    SpeedGradeModel.newAlloc (2 ^ 40) (fun (_ _ : ℚ) => (1 : ℚ)) .milesPerHour 0 100 3000000 .decimal
+      (-1 / 5) (1 / 5) 3000000 .gallonsGasolinePerMile = .err .alloc := by
+  refine ⟨?_, ?_, ?_⟩ <;>
+    exact (new_alloc_never_panics _ _ _ _ _ _ _ _ _ _ _).2.1 (by norm_num)
 /-- an N-D interpolator over a single value with no grid / an empty first grid: accepted, and the validated
 entry point answers the empty point with the value (it used to index `grid[dim]` out of bounds) -/
 example : validateN { grid := ([] : List (List ℚ)), shape := [1], get := getFlat [1] [7] } = .ok () ∧
@@ -864,11 +957,11 @@ example : Interpolator.interpolate (.dn (nd2 [(0 : ℚ), 1, 3] [0, 2] [[0, 2], [
 example : Interpolator.interpolate (.dn (nd2 [(0 : ℚ), 1, 3] [0, 2] [[0, 2], [1, 3], [3, 5]])) [4, 1] .linear
     = .err .outside := by decide +kernel
 example : validateN (nd2 [(0 : ℚ), 1, 3] [0, 2] [[0, 2], [1, 3], [3, 5]]) = .ok () := by decide +kernel
-example : (loadPredictionModel (fun (s g : ℚ) => s + 2 * g) true (.interpolate .smartcore 0 100 3 (-1) 1 3)
+example : (loadPredictionModel 1000 (fun (s g : ℚ) => s + 2 * g) true (.interpolate .smartcore 0 100 3 (-1) 1 3)
       .milesPerHour .decimal .gallonsGasolinePerMile (some 7) none).bind
       (fun r => r.predict 25 .milesPerHour 1 .decimal 2 .miles) = .ok (54, .gallonsGasoline) := by
   decide +kernel
-example : (loadPredictionModel (fun (s g : ℚ) => s + 2 * g) true .smartcore
+example : (loadPredictionModel 1000 (fun (s g : ℚ) => s + 2 * g) true .smartcore
       .milesPerHour .decimal .gallonsGasolinePerMile none (some 2)).bind
       (fun r => .ok (r.idealEnergyRate, r.realWorldEnergyAdjustment)) = .ok ((20 : ℚ), (2 : ℚ)) := by
   decide +kernel
